@@ -205,6 +205,68 @@ def tlc(module, cfg=None, env=None, workers=16, timeout=900, simulate=None, dept
     return res
 
 
+def tlc_stream(module, exp_path, tag="OUT", cfg=None, env=None, workers=16, timeout=900, xmx="8g"):
+    """like tlc(), for enumerations too large to hold in memory: TLC's output goes to a file, every <<tag, id, json>> line
+    is written to `exp_path` as {"id": n, "exp": value} (n = 0, 1, ...) while the file is read line by line; returns
+    (TlcResult of the remaining lines, number of records)"""
+    os.makedirs(WORK, exist_ok=True)
+    _tlc_counter[0] += 1
+    meta = os.path.join(WORK, "tlc-%d-%d" % (os.getpid(), _tlc_counter[0]))
+    shutil.rmtree(meta, ignore_errors=True)
+    cfgp = os.path.join(SPEC, (cfg or module) + ".cfg")
+    cmd = ["timeout", str(timeout), "java", "-XX:+UseParallelGC", "-Xmx" + xmx, "-Xss512m",
+           "-cp", "/opt/veriftools/tla/tla2tools.jar:/opt/veriftools/tla/CommunityModules-deps.jar", "tlc2.TLC",
+           "-workers", str(workers), "-metadir", meta, "-cleanup", "-noGenerateSpecTE", "-config", cfgp,
+           os.path.join(SPEC, module + ".tla")]
+    e = dict(os.environ)
+    if env:
+        e.update({k: str(v) for k, v in env.items()})
+    raw = exp_path + ".tlcout"
+    t = time.time()
+    with open(raw, "w") as f:
+        try:
+            rc = subprocess.run(cmd, cwd=SPEC, env=e, timeout=timeout + 30, stdout=f, stderr=subprocess.STDOUT).returncode
+        except subprocess.TimeoutExpired as ex:
+            raise ToolError("TLC timeout on %s after %ss" % (module, timeout)) from ex
+    shutil.rmtree(meta, ignore_errors=True)
+    rest = []
+    n = 0
+    bad = None
+    with open(raw, errors="replace") as f, open(exp_path, "w") as out:
+        for line in f:
+            line = line.rstrip("\n")
+            m = _OUT_RE.match(line)
+            if m and m.group(1) == tag:
+                try:
+                    v = json.loads(_unescape(m.group(3)))
+                except Exception:
+                    bad = "unparsable output line: " + line[:200]
+                    continue
+                out.write(json.dumps({"id": n, "exp": v}, separators=(",", ":")) + "\n")
+                n += 1
+            elif len(rest) < 20000:
+                rest.append(line)
+    os.remove(raw)
+    text = "\n".join(rest)
+    res = TlcResult(text, rc, time.time() - t)
+    if bad:
+        res.error = bad
+    if rc == 124:
+        raise ToolError("TLC timeout on %s after %ss" % (module, timeout))
+    if res.violated:
+        raise ToolError("TLC reports %s violated in %s (model-level failure):\n%s" % (res.violated, module, text[-3000:]))
+    if res.error or rc != 0:
+        raise ToolError("TLC failed on %s (rc %d): %s\n%s" % (module, rc, res.error, text[-3000:]))
+    return res, n
+
+
+def iter_ndjson(path):
+    with open(path) as f:
+        for l in f:
+            if l.strip():
+                yield json.loads(l)
+
+
 def read_ndjson(path):
     with open(path) as f:
         return [json.loads(l) for l in f if l.strip()]
